@@ -80,11 +80,15 @@ def bounded(t, st, eng, depth=0):
     if field_init(t, eng, (1, 2)):
         return 'size/capacity of an existing container'
     fs = facts(st)
+    # a comparison of an already computed SUM (size + count, 2 * capacity) with max_size () bounds the
+    # wrapped value, not the mathematical one: it is a guard only for a quantity that was not computed
+    # by adding non-constant terms (the overflow-safe spellings `max - size < count` etc. are below)
+    summed = sum(1 for at, co in t[2] if co > 0) >= 2 or any(co >= 2 for at, co in t[2])
     for (kind, x, y) in fs:
         # t <= MAX  (spelled `!(max < t)` or `t <= max`)
-        if kind == 'le' and x == t and is_max_term(y):
+        if kind == 'le' and x == t and is_max_term(y) and not summed:
             return 'guard n <= max_size'
-        if kind == 'lt' and x == t and is_max_term(y):
+        if kind == 'lt' and x == t and is_max_term(y) and not summed:
             return 'guard n < max_size'
         # k <= MAX - s  with t == s + k   (spelled `!(max - size < n)`)
         if kind == 'le' and y[2] and lin_add(x, y) != x:
